@@ -1,8 +1,17 @@
 """C05 - DataFrame comparison passes exactly when the checked structure and values agree."""
-from .. import ief, triage
+import ast
+
+from .. import ief, triage, mirror
+from ..flow import GuardMap
+from ..model import AnalysisError, norm
+from .c04 import prop
+from .common import mirror_rule, dep_closure, names_in
 
 ROOTS = ['ReferenceTest.assertDataFramesEqual', 'ReferenceTest.assertDataFrameCorrect',
          'ReferenceTest.assertOnDiskDataFrameCorrect', 'PandasComparison.check_dataframe']
+DF_ASSERTS = ['assertDataFramesEqual', 'assertOnDiskDataFrameCorrect', 'assertOnDiskDataFramesCorrect']
+REPORTERS = ('different_column_structure', 'missing_columns_detected', 'extra_columns_found', 'field_types_differ',
+             'different_column_orders', 'different_numbers_of_rows')
 
 
 def check(run):
@@ -10,3 +19,109 @@ def check(run):
     roots = [p.fn(r) for r in ROOTS]
     ief.run_ief(run, 'C05', roots, triage=triage.IEF)
     run.floor('C05-IEF', run.units['ief_functions_checked'], 40)
+    pc = p.cls('PandasComparison')
+    fns = [pc.methods[n] for n in ('check_dataframe', 'same_structure_ddiff', 'write_temporaries', 'check_serialized_dataframe') if n in pc.methods]
+    if len(fns) < 4:
+        raise AnalysisError('PandasComparison lost its comparison methods')
+    n = mirror_rule(run, 'C05-SYM', fns, mirror.DF_REF,
+                    'the actual frame and the reference frame are treated identically (categorical replacement, rounding, index reset, sort, '
+                    'condition, loading): near-mirror statement pairs must be exact mirrors under df<->ref_df')
+    run.floor('C05-SYM', n, 50)
+    cd = pc.methods['check_dataframe']
+    rfail(run, p, cd)
+    prop(run, p, 'C05', DF_ASSERTS)
+    state(run, p, pc)
+    ordersrc(run, p, cd)
+
+
+def rfail(run, p, cd):
+    run.rule('C05-RFAIL', 'whatever check_dataframe reports as a difference also fails the check: every report call is control-dependent only '
+                          'on values that flow into the returned failures count')
+    rets = [r for r in ast.walk(cd.node) if isinstance(r, ast.Return) and r.value is not None]
+    if len(rets) != 1:
+        raise AnalysisError('check_dataframe has %d returns' % len(rets))
+    fl = None
+    v = rets[0].value
+    if isinstance(v, ast.Call):
+        for k in v.keywords:
+            if k.arg == 'failures':
+                fl = k.value
+        if fl is None and v.args:
+            fl = v.args[0]
+    if fl is None:
+        raise AnalysisError('check_dataframe: returned failures expression not found')
+    R = dep_closure(cd.node, names_in(fl), control=True)
+    gm = GuardMap(cd.node)
+    n = 0
+    for x in p.own_nodes(cd):
+        if isinstance(x, ast.Call) and isinstance(x.func, ast.Attribute) and x.func.attr in REPORTERS:
+            n += 1
+            ch = gm.chain(x) or ()
+            used = set()
+            for g in ch:
+                if g.kind == 'if':
+                    used |= {y for y in names_in(g.test) if not y.startswith('self')}
+            miss = sorted(used - R)
+            run.ob('C05-RFAIL', '%s::%s::%s' % (cd.rel, cd.short, x.func.attr), not miss,
+                   '%s is reported under %s%s' % (x.func.attr, sorted(used), '' if not miss else '; %s does not flow into the returned failure count' % miss),
+                   fn=cd, node=x)
+    # the failure expression itself
+    ok = isinstance(fl, ast.IfExp) and norm(fl).replace(' ', '') in ('0ifsameelse1', '1ifnotsameelse0')
+    run.ob('C05-RFAIL', '%s::%s::return' % (cd.rel, cd.short), ok, 'returns failures=%s' % norm(fl), fn=cd, node=rets[0], nontrivial=False)
+    run.floor('C05-RFAIL', n, 6)
+
+
+def state(run, p, pc):
+    run.rule('C05-STATE', 'an option of one comparison cannot leak into the next: an instance attribute that a comparison entry point sets from '
+                          'its parameters is never read on the right-hand side of that same assignment, and has no class-level default that '
+                          'the entry point falls back to')
+    n = 0
+    for name in ('check_dataframe', 'check_serialized_dataframe', 'check_serialized_dataframes'):
+        f = pc.methods.get(name)
+        if f is None:
+            continue
+        for s in p.own_nodes(f):
+            if isinstance(s, ast.Assign):
+                for t in s.targets:
+                    if isinstance(t, ast.Attribute) and isinstance(t.value, ast.Name) and t.value.id == 'self':
+                        n += 1
+                        rhs = names_in(s.value)
+                        ok = ('self.' + t.attr) not in rhs and not any(
+                            isinstance(c, ast.Call) and getattr(c.func, 'id', '') == 'getattr' and len(c.args) >= 2 and norm(c.args[0]) == 'self'
+                            and isinstance(c.args[1], ast.Constant) and c.args[1].value == t.attr for c in ast.walk(s.value))
+                        run.ob('C05-STATE', '%s::%s::self.%s' % (f.rel, f.short, t.attr), ok,
+                               '`%s` %s' % (norm(s)[:60], 'depends only on this call' if ok else 'reads the value left by a previous call'), fn=f, node=s)
+    run.floor('C05-STATE', n, 3)
+
+
+def ordersrc(run, p, cd):
+    run.rule('C05-ORDER', 'the column-order check compares the order of the actual frame\'s own columns with the order of the reference '
+                          'frame\'s own columns (each side iterates its frame), restricted to the selected columns')
+    gm = GuardMap(cd.node)
+    var = None
+    for x in p.own_nodes(cd):
+        if isinstance(x, ast.Call) and isinstance(x.func, ast.Attribute) and x.func.attr == 'different_column_orders':
+            for g in gm.chain(x) or ():
+                if g.kind == 'if' and g.pol and isinstance(g.test, ast.Name) and g.test.id != 'same':
+                    var = g.test.id
+    if var is None:
+        raise AnalysisError('check_dataframe: guard of different_column_orders not found')
+    cmp_ = [s.value for s in ast.walk(cd.node) if isinstance(s, ast.Assign) and any(norm(t) == var for t in s.targets) and isinstance(s.value, ast.Compare)]
+    if len(cmp_) != 1:
+        raise AnalysisError('check_dataframe: %s is not defined by one comparison' % var)
+    c = cmp_[0]
+    srcs = []
+    for operand in (c.left, c.comparators[0]):
+        src = None
+        if isinstance(operand, ast.Name):
+            for s in ast.walk(cd.node):
+                if isinstance(s, ast.Assign) and any(norm(t) == operand.id for t in s.targets) and isinstance(s.value, (ast.ListComp, ast.GeneratorExp)):
+                    src = norm(s.value.generators[0].iter)
+        elif isinstance(operand, (ast.ListComp, ast.GeneratorExp)):
+            src = norm(operand.generators[0].iter)
+        srcs.append(src)
+    frames = {'list(df)': 'df', 'df.columns': 'df', 'df': 'df', 'list(ref_df)': 'ref_df', 'ref_df.columns': 'ref_df', 'ref_df': 'ref_df'}
+    got = sorted(frames.get((s or '').replace(' ', ''), '?') for s in srcs)
+    run.ob('C05-ORDER', '%s::%s::%s' % (cd.rel, cd.short, var), got == ['df', 'ref_df'] and isinstance(c.ops[0], ast.NotEq),
+           '%s = `%s`; the two sequences iterate %s' % (var, norm(c), srcs), fn=cd, node=c)
+    run.floor('C05-ORDER', 1, 1)
